@@ -83,54 +83,60 @@ Record st := {
   conn : bool;
   reg : bool;
   queue : list call;
+  regreq : bool;
+  obuf : list (call * Z);
   outs : list out
 }.
 Definition set_now (v : Z) (s : st) : st :=
-  {| now := v; cnt0 := cnt0 s; tb := tb s; upc := upc s; upl := upl s; gout := gout s; slots := slots s; delay := delay s; tcd := tcd s; tsv := tsv s; tup := tup s; seqc := seqc s; li := li s; ram_relay := ram_relay s; ram_t2 := ram_t2 s; fl_relay := fl_relay s; fl_t2 := fl_t2 s; chfl := chfl s; time2 := time2 s; conn := conn s; reg := reg s; queue := queue s; outs := outs s |}.
+  {| now := v; cnt0 := cnt0 s; tb := tb s; upc := upc s; upl := upl s; gout := gout s; slots := slots s; delay := delay s; tcd := tcd s; tsv := tsv s; tup := tup s; seqc := seqc s; li := li s; ram_relay := ram_relay s; ram_t2 := ram_t2 s; fl_relay := fl_relay s; fl_t2 := fl_t2 s; chfl := chfl s; time2 := time2 s; conn := conn s; reg := reg s; queue := queue s; regreq := regreq s; obuf := obuf s; outs := outs s |}.
 Definition set_cnt0 (v : Z) (s : st) : st :=
-  {| now := now s; cnt0 := v; tb := tb s; upc := upc s; upl := upl s; gout := gout s; slots := slots s; delay := delay s; tcd := tcd s; tsv := tsv s; tup := tup s; seqc := seqc s; li := li s; ram_relay := ram_relay s; ram_t2 := ram_t2 s; fl_relay := fl_relay s; fl_t2 := fl_t2 s; chfl := chfl s; time2 := time2 s; conn := conn s; reg := reg s; queue := queue s; outs := outs s |}.
+  {| now := now s; cnt0 := v; tb := tb s; upc := upc s; upl := upl s; gout := gout s; slots := slots s; delay := delay s; tcd := tcd s; tsv := tsv s; tup := tup s; seqc := seqc s; li := li s; ram_relay := ram_relay s; ram_t2 := ram_t2 s; fl_relay := fl_relay s; fl_t2 := fl_t2 s; chfl := chfl s; time2 := time2 s; conn := conn s; reg := reg s; queue := queue s; regreq := regreq s; obuf := obuf s; outs := outs s |}.
 Definition set_tb (v : Z) (s : st) : st :=
-  {| now := now s; cnt0 := cnt0 s; tb := v; upc := upc s; upl := upl s; gout := gout s; slots := slots s; delay := delay s; tcd := tcd s; tsv := tsv s; tup := tup s; seqc := seqc s; li := li s; ram_relay := ram_relay s; ram_t2 := ram_t2 s; fl_relay := fl_relay s; fl_t2 := fl_t2 s; chfl := chfl s; time2 := time2 s; conn := conn s; reg := reg s; queue := queue s; outs := outs s |}.
+  {| now := now s; cnt0 := cnt0 s; tb := v; upc := upc s; upl := upl s; gout := gout s; slots := slots s; delay := delay s; tcd := tcd s; tsv := tsv s; tup := tup s; seqc := seqc s; li := li s; ram_relay := ram_relay s; ram_t2 := ram_t2 s; fl_relay := fl_relay s; fl_t2 := fl_t2 s; chfl := chfl s; time2 := time2 s; conn := conn s; reg := reg s; queue := queue s; regreq := regreq s; obuf := obuf s; outs := outs s |}.
 Definition set_upc (v : Z) (s : st) : st :=
-  {| now := now s; cnt0 := cnt0 s; tb := tb s; upc := v; upl := upl s; gout := gout s; slots := slots s; delay := delay s; tcd := tcd s; tsv := tsv s; tup := tup s; seqc := seqc s; li := li s; ram_relay := ram_relay s; ram_t2 := ram_t2 s; fl_relay := fl_relay s; fl_t2 := fl_t2 s; chfl := chfl s; time2 := time2 s; conn := conn s; reg := reg s; queue := queue s; outs := outs s |}.
+  {| now := now s; cnt0 := cnt0 s; tb := tb s; upc := v; upl := upl s; gout := gout s; slots := slots s; delay := delay s; tcd := tcd s; tsv := tsv s; tup := tup s; seqc := seqc s; li := li s; ram_relay := ram_relay s; ram_t2 := ram_t2 s; fl_relay := fl_relay s; fl_t2 := fl_t2 s; chfl := chfl s; time2 := time2 s; conn := conn s; reg := reg s; queue := queue s; regreq := regreq s; obuf := obuf s; outs := outs s |}.
 Definition set_upl (v : Z) (s : st) : st :=
-  {| now := now s; cnt0 := cnt0 s; tb := tb s; upc := upc s; upl := v; gout := gout s; slots := slots s; delay := delay s; tcd := tcd s; tsv := tsv s; tup := tup s; seqc := seqc s; li := li s; ram_relay := ram_relay s; ram_t2 := ram_t2 s; fl_relay := fl_relay s; fl_t2 := fl_t2 s; chfl := chfl s; time2 := time2 s; conn := conn s; reg := reg s; queue := queue s; outs := outs s |}.
+  {| now := now s; cnt0 := cnt0 s; tb := tb s; upc := upc s; upl := v; gout := gout s; slots := slots s; delay := delay s; tcd := tcd s; tsv := tsv s; tup := tup s; seqc := seqc s; li := li s; ram_relay := ram_relay s; ram_t2 := ram_t2 s; fl_relay := fl_relay s; fl_t2 := fl_t2 s; chfl := chfl s; time2 := time2 s; conn := conn s; reg := reg s; queue := queue s; regreq := regreq s; obuf := obuf s; outs := outs s |}.
 Definition set_gout (v : Z) (s : st) : st :=
-  {| now := now s; cnt0 := cnt0 s; tb := tb s; upc := upc s; upl := upl s; gout := v; slots := slots s; delay := delay s; tcd := tcd s; tsv := tsv s; tup := tup s; seqc := seqc s; li := li s; ram_relay := ram_relay s; ram_t2 := ram_t2 s; fl_relay := fl_relay s; fl_t2 := fl_t2 s; chfl := chfl s; time2 := time2 s; conn := conn s; reg := reg s; queue := queue s; outs := outs s |}.
+  {| now := now s; cnt0 := cnt0 s; tb := tb s; upc := upc s; upl := upl s; gout := v; slots := slots s; delay := delay s; tcd := tcd s; tsv := tsv s; tup := tup s; seqc := seqc s; li := li s; ram_relay := ram_relay s; ram_t2 := ram_t2 s; fl_relay := fl_relay s; fl_t2 := fl_t2 s; chfl := chfl s; time2 := time2 s; conn := conn s; reg := reg s; queue := queue s; regreq := regreq s; obuf := obuf s; outs := outs s |}.
 Definition set_slots (v : list slot) (s : st) : st :=
-  {| now := now s; cnt0 := cnt0 s; tb := tb s; upc := upc s; upl := upl s; gout := gout s; slots := v; delay := delay s; tcd := tcd s; tsv := tsv s; tup := tup s; seqc := seqc s; li := li s; ram_relay := ram_relay s; ram_t2 := ram_t2 s; fl_relay := fl_relay s; fl_t2 := fl_t2 s; chfl := chfl s; time2 := time2 s; conn := conn s; reg := reg s; queue := queue s; outs := outs s |}.
+  {| now := now s; cnt0 := cnt0 s; tb := tb s; upc := upc s; upl := upl s; gout := gout s; slots := v; delay := delay s; tcd := tcd s; tsv := tsv s; tup := tup s; seqc := seqc s; li := li s; ram_relay := ram_relay s; ram_t2 := ram_t2 s; fl_relay := fl_relay s; fl_t2 := fl_t2 s; chfl := chfl s; time2 := time2 s; conn := conn s; reg := reg s; queue := queue s; regreq := regreq s; obuf := obuf s; outs := outs s |}.
 Definition set_delay (v : Z) (s : st) : st :=
-  {| now := now s; cnt0 := cnt0 s; tb := tb s; upc := upc s; upl := upl s; gout := gout s; slots := slots s; delay := v; tcd := tcd s; tsv := tsv s; tup := tup s; seqc := seqc s; li := li s; ram_relay := ram_relay s; ram_t2 := ram_t2 s; fl_relay := fl_relay s; fl_t2 := fl_t2 s; chfl := chfl s; time2 := time2 s; conn := conn s; reg := reg s; queue := queue s; outs := outs s |}.
+  {| now := now s; cnt0 := cnt0 s; tb := tb s; upc := upc s; upl := upl s; gout := gout s; slots := slots s; delay := v; tcd := tcd s; tsv := tsv s; tup := tup s; seqc := seqc s; li := li s; ram_relay := ram_relay s; ram_t2 := ram_t2 s; fl_relay := fl_relay s; fl_t2 := fl_t2 s; chfl := chfl s; time2 := time2 s; conn := conn s; reg := reg s; queue := queue s; regreq := regreq s; obuf := obuf s; outs := outs s |}.
 Definition set_tcd (v : tmr) (s : st) : st :=
-  {| now := now s; cnt0 := cnt0 s; tb := tb s; upc := upc s; upl := upl s; gout := gout s; slots := slots s; delay := delay s; tcd := v; tsv := tsv s; tup := tup s; seqc := seqc s; li := li s; ram_relay := ram_relay s; ram_t2 := ram_t2 s; fl_relay := fl_relay s; fl_t2 := fl_t2 s; chfl := chfl s; time2 := time2 s; conn := conn s; reg := reg s; queue := queue s; outs := outs s |}.
+  {| now := now s; cnt0 := cnt0 s; tb := tb s; upc := upc s; upl := upl s; gout := gout s; slots := slots s; delay := delay s; tcd := v; tsv := tsv s; tup := tup s; seqc := seqc s; li := li s; ram_relay := ram_relay s; ram_t2 := ram_t2 s; fl_relay := fl_relay s; fl_t2 := fl_t2 s; chfl := chfl s; time2 := time2 s; conn := conn s; reg := reg s; queue := queue s; regreq := regreq s; obuf := obuf s; outs := outs s |}.
 Definition set_tsv (v : tmr) (s : st) : st :=
-  {| now := now s; cnt0 := cnt0 s; tb := tb s; upc := upc s; upl := upl s; gout := gout s; slots := slots s; delay := delay s; tcd := tcd s; tsv := v; tup := tup s; seqc := seqc s; li := li s; ram_relay := ram_relay s; ram_t2 := ram_t2 s; fl_relay := fl_relay s; fl_t2 := fl_t2 s; chfl := chfl s; time2 := time2 s; conn := conn s; reg := reg s; queue := queue s; outs := outs s |}.
+  {| now := now s; cnt0 := cnt0 s; tb := tb s; upc := upc s; upl := upl s; gout := gout s; slots := slots s; delay := delay s; tcd := tcd s; tsv := v; tup := tup s; seqc := seqc s; li := li s; ram_relay := ram_relay s; ram_t2 := ram_t2 s; fl_relay := fl_relay s; fl_t2 := fl_t2 s; chfl := chfl s; time2 := time2 s; conn := conn s; reg := reg s; queue := queue s; regreq := regreq s; obuf := obuf s; outs := outs s |}.
 Definition set_tup (v : tmr) (s : st) : st :=
-  {| now := now s; cnt0 := cnt0 s; tb := tb s; upc := upc s; upl := upl s; gout := gout s; slots := slots s; delay := delay s; tcd := tcd s; tsv := tsv s; tup := v; seqc := seqc s; li := li s; ram_relay := ram_relay s; ram_t2 := ram_t2 s; fl_relay := fl_relay s; fl_t2 := fl_t2 s; chfl := chfl s; time2 := time2 s; conn := conn s; reg := reg s; queue := queue s; outs := outs s |}.
+  {| now := now s; cnt0 := cnt0 s; tb := tb s; upc := upc s; upl := upl s; gout := gout s; slots := slots s; delay := delay s; tcd := tcd s; tsv := tsv s; tup := v; seqc := seqc s; li := li s; ram_relay := ram_relay s; ram_t2 := ram_t2 s; fl_relay := fl_relay s; fl_t2 := fl_t2 s; chfl := chfl s; time2 := time2 s; conn := conn s; reg := reg s; queue := queue s; regreq := regreq s; obuf := obuf s; outs := outs s |}.
 Definition set_seqc (v : Z) (s : st) : st :=
-  {| now := now s; cnt0 := cnt0 s; tb := tb s; upc := upc s; upl := upl s; gout := gout s; slots := slots s; delay := delay s; tcd := tcd s; tsv := tsv s; tup := tup s; seqc := v; li := li s; ram_relay := ram_relay s; ram_t2 := ram_t2 s; fl_relay := fl_relay s; fl_t2 := fl_t2 s; chfl := chfl s; time2 := time2 s; conn := conn s; reg := reg s; queue := queue s; outs := outs s |}.
+  {| now := now s; cnt0 := cnt0 s; tb := tb s; upc := upc s; upl := upl s; gout := gout s; slots := slots s; delay := delay s; tcd := tcd s; tsv := tsv s; tup := tup s; seqc := v; li := li s; ram_relay := ram_relay s; ram_t2 := ram_t2 s; fl_relay := fl_relay s; fl_t2 := fl_t2 s; chfl := chfl s; time2 := time2 s; conn := conn s; reg := reg s; queue := queue s; regreq := regreq s; obuf := obuf s; outs := outs s |}.
 Definition set_li (v : Z) (s : st) : st :=
-  {| now := now s; cnt0 := cnt0 s; tb := tb s; upc := upc s; upl := upl s; gout := gout s; slots := slots s; delay := delay s; tcd := tcd s; tsv := tsv s; tup := tup s; seqc := seqc s; li := v; ram_relay := ram_relay s; ram_t2 := ram_t2 s; fl_relay := fl_relay s; fl_t2 := fl_t2 s; chfl := chfl s; time2 := time2 s; conn := conn s; reg := reg s; queue := queue s; outs := outs s |}.
+  {| now := now s; cnt0 := cnt0 s; tb := tb s; upc := upc s; upl := upl s; gout := gout s; slots := slots s; delay := delay s; tcd := tcd s; tsv := tsv s; tup := tup s; seqc := seqc s; li := v; ram_relay := ram_relay s; ram_t2 := ram_t2 s; fl_relay := fl_relay s; fl_t2 := fl_t2 s; chfl := chfl s; time2 := time2 s; conn := conn s; reg := reg s; queue := queue s; regreq := regreq s; obuf := obuf s; outs := outs s |}.
 Definition set_ram_relay (v : list Z) (s : st) : st :=
-  {| now := now s; cnt0 := cnt0 s; tb := tb s; upc := upc s; upl := upl s; gout := gout s; slots := slots s; delay := delay s; tcd := tcd s; tsv := tsv s; tup := tup s; seqc := seqc s; li := li s; ram_relay := v; ram_t2 := ram_t2 s; fl_relay := fl_relay s; fl_t2 := fl_t2 s; chfl := chfl s; time2 := time2 s; conn := conn s; reg := reg s; queue := queue s; outs := outs s |}.
+  {| now := now s; cnt0 := cnt0 s; tb := tb s; upc := upc s; upl := upl s; gout := gout s; slots := slots s; delay := delay s; tcd := tcd s; tsv := tsv s; tup := tup s; seqc := seqc s; li := li s; ram_relay := v; ram_t2 := ram_t2 s; fl_relay := fl_relay s; fl_t2 := fl_t2 s; chfl := chfl s; time2 := time2 s; conn := conn s; reg := reg s; queue := queue s; regreq := regreq s; obuf := obuf s; outs := outs s |}.
 Definition set_ram_t2 (v : list Z) (s : st) : st :=
-  {| now := now s; cnt0 := cnt0 s; tb := tb s; upc := upc s; upl := upl s; gout := gout s; slots := slots s; delay := delay s; tcd := tcd s; tsv := tsv s; tup := tup s; seqc := seqc s; li := li s; ram_relay := ram_relay s; ram_t2 := v; fl_relay := fl_relay s; fl_t2 := fl_t2 s; chfl := chfl s; time2 := time2 s; conn := conn s; reg := reg s; queue := queue s; outs := outs s |}.
+  {| now := now s; cnt0 := cnt0 s; tb := tb s; upc := upc s; upl := upl s; gout := gout s; slots := slots s; delay := delay s; tcd := tcd s; tsv := tsv s; tup := tup s; seqc := seqc s; li := li s; ram_relay := ram_relay s; ram_t2 := v; fl_relay := fl_relay s; fl_t2 := fl_t2 s; chfl := chfl s; time2 := time2 s; conn := conn s; reg := reg s; queue := queue s; regreq := regreq s; obuf := obuf s; outs := outs s |}.
 Definition set_fl_relay (v : list Z) (s : st) : st :=
-  {| now := now s; cnt0 := cnt0 s; tb := tb s; upc := upc s; upl := upl s; gout := gout s; slots := slots s; delay := delay s; tcd := tcd s; tsv := tsv s; tup := tup s; seqc := seqc s; li := li s; ram_relay := ram_relay s; ram_t2 := ram_t2 s; fl_relay := v; fl_t2 := fl_t2 s; chfl := chfl s; time2 := time2 s; conn := conn s; reg := reg s; queue := queue s; outs := outs s |}.
+  {| now := now s; cnt0 := cnt0 s; tb := tb s; upc := upc s; upl := upl s; gout := gout s; slots := slots s; delay := delay s; tcd := tcd s; tsv := tsv s; tup := tup s; seqc := seqc s; li := li s; ram_relay := ram_relay s; ram_t2 := ram_t2 s; fl_relay := v; fl_t2 := fl_t2 s; chfl := chfl s; time2 := time2 s; conn := conn s; reg := reg s; queue := queue s; regreq := regreq s; obuf := obuf s; outs := outs s |}.
 Definition set_fl_t2 (v : list Z) (s : st) : st :=
-  {| now := now s; cnt0 := cnt0 s; tb := tb s; upc := upc s; upl := upl s; gout := gout s; slots := slots s; delay := delay s; tcd := tcd s; tsv := tsv s; tup := tup s; seqc := seqc s; li := li s; ram_relay := ram_relay s; ram_t2 := ram_t2 s; fl_relay := fl_relay s; fl_t2 := v; chfl := chfl s; time2 := time2 s; conn := conn s; reg := reg s; queue := queue s; outs := outs s |}.
+  {| now := now s; cnt0 := cnt0 s; tb := tb s; upc := upc s; upl := upl s; gout := gout s; slots := slots s; delay := delay s; tcd := tcd s; tsv := tsv s; tup := tup s; seqc := seqc s; li := li s; ram_relay := ram_relay s; ram_t2 := ram_t2 s; fl_relay := fl_relay s; fl_t2 := v; chfl := chfl s; time2 := time2 s; conn := conn s; reg := reg s; queue := queue s; regreq := regreq s; obuf := obuf s; outs := outs s |}.
 Definition set_chfl (v : list Z) (s : st) : st :=
-  {| now := now s; cnt0 := cnt0 s; tb := tb s; upc := upc s; upl := upl s; gout := gout s; slots := slots s; delay := delay s; tcd := tcd s; tsv := tsv s; tup := tup s; seqc := seqc s; li := li s; ram_relay := ram_relay s; ram_t2 := ram_t2 s; fl_relay := fl_relay s; fl_t2 := fl_t2 s; chfl := v; time2 := time2 s; conn := conn s; reg := reg s; queue := queue s; outs := outs s |}.
+  {| now := now s; cnt0 := cnt0 s; tb := tb s; upc := upc s; upl := upl s; gout := gout s; slots := slots s; delay := delay s; tcd := tcd s; tsv := tsv s; tup := tup s; seqc := seqc s; li := li s; ram_relay := ram_relay s; ram_t2 := ram_t2 s; fl_relay := fl_relay s; fl_t2 := fl_t2 s; chfl := v; time2 := time2 s; conn := conn s; reg := reg s; queue := queue s; regreq := regreq s; obuf := obuf s; outs := outs s |}.
 Definition set_time2 (v : list Z) (s : st) : st :=
-  {| now := now s; cnt0 := cnt0 s; tb := tb s; upc := upc s; upl := upl s; gout := gout s; slots := slots s; delay := delay s; tcd := tcd s; tsv := tsv s; tup := tup s; seqc := seqc s; li := li s; ram_relay := ram_relay s; ram_t2 := ram_t2 s; fl_relay := fl_relay s; fl_t2 := fl_t2 s; chfl := chfl s; time2 := v; conn := conn s; reg := reg s; queue := queue s; outs := outs s |}.
+  {| now := now s; cnt0 := cnt0 s; tb := tb s; upc := upc s; upl := upl s; gout := gout s; slots := slots s; delay := delay s; tcd := tcd s; tsv := tsv s; tup := tup s; seqc := seqc s; li := li s; ram_relay := ram_relay s; ram_t2 := ram_t2 s; fl_relay := fl_relay s; fl_t2 := fl_t2 s; chfl := chfl s; time2 := v; conn := conn s; reg := reg s; queue := queue s; regreq := regreq s; obuf := obuf s; outs := outs s |}.
 Definition set_conn (v : bool) (s : st) : st :=
-  {| now := now s; cnt0 := cnt0 s; tb := tb s; upc := upc s; upl := upl s; gout := gout s; slots := slots s; delay := delay s; tcd := tcd s; tsv := tsv s; tup := tup s; seqc := seqc s; li := li s; ram_relay := ram_relay s; ram_t2 := ram_t2 s; fl_relay := fl_relay s; fl_t2 := fl_t2 s; chfl := chfl s; time2 := time2 s; conn := v; reg := reg s; queue := queue s; outs := outs s |}.
+  {| now := now s; cnt0 := cnt0 s; tb := tb s; upc := upc s; upl := upl s; gout := gout s; slots := slots s; delay := delay s; tcd := tcd s; tsv := tsv s; tup := tup s; seqc := seqc s; li := li s; ram_relay := ram_relay s; ram_t2 := ram_t2 s; fl_relay := fl_relay s; fl_t2 := fl_t2 s; chfl := chfl s; time2 := time2 s; conn := v; reg := reg s; queue := queue s; regreq := regreq s; obuf := obuf s; outs := outs s |}.
 Definition set_reg (v : bool) (s : st) : st :=
-  {| now := now s; cnt0 := cnt0 s; tb := tb s; upc := upc s; upl := upl s; gout := gout s; slots := slots s; delay := delay s; tcd := tcd s; tsv := tsv s; tup := tup s; seqc := seqc s; li := li s; ram_relay := ram_relay s; ram_t2 := ram_t2 s; fl_relay := fl_relay s; fl_t2 := fl_t2 s; chfl := chfl s; time2 := time2 s; conn := conn s; reg := v; queue := queue s; outs := outs s |}.
+  {| now := now s; cnt0 := cnt0 s; tb := tb s; upc := upc s; upl := upl s; gout := gout s; slots := slots s; delay := delay s; tcd := tcd s; tsv := tsv s; tup := tup s; seqc := seqc s; li := li s; ram_relay := ram_relay s; ram_t2 := ram_t2 s; fl_relay := fl_relay s; fl_t2 := fl_t2 s; chfl := chfl s; time2 := time2 s; conn := conn s; reg := v; queue := queue s; regreq := regreq s; obuf := obuf s; outs := outs s |}.
 Definition set_queue (v : list call) (s : st) : st :=
-  {| now := now s; cnt0 := cnt0 s; tb := tb s; upc := upc s; upl := upl s; gout := gout s; slots := slots s; delay := delay s; tcd := tcd s; tsv := tsv s; tup := tup s; seqc := seqc s; li := li s; ram_relay := ram_relay s; ram_t2 := ram_t2 s; fl_relay := fl_relay s; fl_t2 := fl_t2 s; chfl := chfl s; time2 := time2 s; conn := conn s; reg := reg s; queue := v; outs := outs s |}.
+  {| now := now s; cnt0 := cnt0 s; tb := tb s; upc := upc s; upl := upl s; gout := gout s; slots := slots s; delay := delay s; tcd := tcd s; tsv := tsv s; tup := tup s; seqc := seqc s; li := li s; ram_relay := ram_relay s; ram_t2 := ram_t2 s; fl_relay := fl_relay s; fl_t2 := fl_t2 s; chfl := chfl s; time2 := time2 s; conn := conn s; reg := reg s; queue := v; regreq := regreq s; obuf := obuf s; outs := outs s |}.
+Definition set_regreq (v : bool) (s : st) : st :=
+  {| now := now s; cnt0 := cnt0 s; tb := tb s; upc := upc s; upl := upl s; gout := gout s; slots := slots s; delay := delay s; tcd := tcd s; tsv := tsv s; tup := tup s; seqc := seqc s; li := li s; ram_relay := ram_relay s; ram_t2 := ram_t2 s; fl_relay := fl_relay s; fl_t2 := fl_t2 s; chfl := chfl s; time2 := time2 s; conn := conn s; reg := reg s; queue := queue s; regreq := v; obuf := obuf s; outs := outs s |}.
+Definition set_obuf (v : list (call * Z)) (s : st) : st :=
+  {| now := now s; cnt0 := cnt0 s; tb := tb s; upc := upc s; upl := upl s; gout := gout s; slots := slots s; delay := delay s; tcd := tcd s; tsv := tsv s; tup := tup s; seqc := seqc s; li := li s; ram_relay := ram_relay s; ram_t2 := ram_t2 s; fl_relay := fl_relay s; fl_t2 := fl_t2 s; chfl := chfl s; time2 := time2 s; conn := conn s; reg := reg s; queue := queue s; regreq := regreq s; obuf := v; outs := outs s |}.
 Definition set_outs (v : list out) (s : st) : st :=
-  {| now := now s; cnt0 := cnt0 s; tb := tb s; upc := upc s; upl := upl s; gout := gout s; slots := slots s; delay := delay s; tcd := tcd s; tsv := tsv s; tup := tup s; seqc := seqc s; li := li s; ram_relay := ram_relay s; ram_t2 := ram_t2 s; fl_relay := fl_relay s; fl_t2 := fl_t2 s; chfl := chfl s; time2 := time2 s; conn := conn s; reg := reg s; queue := queue s; outs := v |}.
+  {| now := now s; cnt0 := cnt0 s; tb := tb s; upc := upc s; upl := upl s; gout := gout s; slots := slots s; delay := delay s; tcd := tcd s; tsv := tsv s; tup := tup s; seqc := seqc s; li := li s; ram_relay := ram_relay s; ram_t2 := ram_t2 s; fl_relay := fl_relay s; fl_t2 := fl_t2 s; chfl := chfl s; time2 := time2 s; conn := conn s; reg := reg s; queue := queue s; regreq := regreq s; obuf := obuf s; outs := v |}.
 
 Definition emit (o : out) (s : st) : st := set_outs (o :: outs s) s.
 Definition delay_us (n : Z) (s : st) : st := set_now (now s + n) s.
@@ -405,7 +411,7 @@ Definition boot (e : bool) (c : cfg) (s : st) : st :=
   let s2 := set_ram_relay (fl_relay s1) (set_ram_t2 (fl_t2 s1) s1) in
   let s3 := set_slots (repeat slot_free 8) (set_delay 0 s2) in
   let s4 := set_chfl (if c_lateflags c then map (fun _ => 0) (c_relays c) else map r_chfl (c_relays c)) s3 in
-  let s5 := set_queue [] (set_conn false (set_reg false (set_gout 0 s4))) in
+  let s5 := set_obuf [] (set_regreq false (set_queue [] (set_conn false (set_reg false (set_gout 0 s4))))) in
   let s6 := fold_left (restore_relay e c) (enum 0 (c_relays c)) s5 in
   (* devconn_init: last_response = uptime_sec() (a clock reading), then it arms its watchdog (disarmed again by
      the offline harness) *)
@@ -417,7 +423,7 @@ Definition init (c : cfg) : st :=
   {| now := 0; cnt0 := c_boot c; tb := 0; upc := 0; upl := 0; gout := 0; slots := repeat slot_free 8; delay := 0;
      tcd := tmr0; tsv := tmr0; tup := tmr0; seqc := 0; li := 0;
      ram_relay := zeros8; ram_t2 := zeros8; fl_relay := zeros8; fl_t2 := zeros8;
-     chfl := []; time2 := pad8 (c_time2 c); conn := false; reg := false; queue := []; outs := [] |}.
+     chfl := []; time2 := pad8 (c_time2 c); conn := false; reg := false; queue := []; regreq := false; obuf := []; outs := [] |}.
 
 (* ---------- events of the C07 driver ---------- *)
 Inductive ev :=
